@@ -360,6 +360,7 @@ impl WorldB {
                 obs.abs.u64(0x700 + (op.c % 12) * 8 + ptype as u64);
                 let dst = if to_server { self.public[0] } else { self.slots[op.d as usize % ns].addr };
                 let ix = self.adv_record(buf[..n].to_vec(), src, dst, Some(tid), bogus, obs);
+                self.ledger[ix].sealed_c2s = to_server;
                 let _ = own_session;
                 if to_server && !wrong_protocol && ptype == T_PAYLOAD {
                     // a token owner speaking with its own keys: this is a generated payload of that client identity
